@@ -31,6 +31,7 @@ type dvariant struct {
 	decode, norm    string
 	evalErrWith     string // name of the profile variant whose evaluation fails on this document
 	nodes           bool
+	buildErrWith    string // comma-separated profile variants whose report cannot be encoded for this document
 }
 
 const evalErrProfile = `#%Validation Profile 1.0
@@ -68,23 +69,24 @@ var profileVariants = []pvariant{
 }
 
 var dataVariants = []dvariant{
-	{"good", PoolDataGood, "ok", "ok", "", true},
-	{"bad", PoolDataBad, "ok", "ok", "eval-error", true},
-	{"empty-graph", PoolDataEmpty, "ok", "ok", "", false},
-	{"empty-object", "{}", "ok", "ok", "", false},
-	{"empty-array", "[]", "ok", "ok", "", false},
-	{"null", "null", "ok", "ok", "", false},
-	{"number", "1", "ok", "ok", "", false},
-	{"string", "\"s\"", "ok", "ok", "", false},
-	{"garbage", PoolDataGarbage, "err", "ok", "", false},
-	{"empty-text", "", "err", "ok", "", false},
-	{"truncated", PoolDataTruncated, "err", "ok", "", false},
-	{"open-brace", "{", "err", "ok", "", false},
-	{"jsonld-id-number", `{"@id": 5, "@type": "http://example.org/ns#Thing"}`, "ok", "panic", "", false},
-	{"jsonld-context-number", `{"@context": 5, "@id": "http://example.org/d#a"}`, "ok", "panic", "", false},
-	{"jsonld-type-number", `{"@id": "http://example.org/d#a", "@type": 1}`, "ok", "panic", "", false},
-	{"jsonld-value-and-id", `{"@id": "http://example.org/d#a", "http://example.org/ns#p": {"@value": 1, "@id": "http://example.org/d#b"}}`, "ok", "panic", "", false},
-	{"lexical-without-element", `{"@graph":[{"@id":"http://example.org/d#sm","@type":["http://a.ml/vocabularies/document-source-maps#SourceMap"],"http://a.ml/vocabularies/document-source-maps#lexical":[{"@id":"http://example.org/d#lx"}]},{"@id":"http://example.org/d#lx","http://a.ml/vocabularies/document-source-maps#value":"[(1,0)-(2,0)]"}]}`, "ok", "panic", "", false},
+	{"good", PoolDataGood, "ok", "ok", "", true, ""},
+	{"bad", PoolDataBad, "ok", "ok", "eval-error", true, ""},
+	{"empty-graph", PoolDataEmpty, "ok", "ok", "", false, ""},
+	{"empty-object", "{}", "ok", "ok", "", false, ""},
+	{"empty-array", "[]", "ok", "ok", "", false, ""},
+	{"null", "null", "ok", "ok", "", false, ""},
+	{"number", "1", "ok", "ok", "", false, ""},
+	{"string", "\"s\"", "ok", "ok", "", false, ""},
+	{"garbage", PoolDataGarbage, "err", "ok", "", false, ""},
+	{"empty-text", "", "err", "ok", "", false, ""},
+	{"truncated", PoolDataTruncated, "err", "ok", "", false, ""},
+	{"open-brace", "{", "err", "ok", "", false, ""},
+	{"jsonld-id-number", `{"@id": 5, "@type": "http://example.org/ns#Thing"}`, "ok", "panic", "", false, ""},
+	{"jsonld-context-number", `{"@context": 5, "@id": "http://example.org/d#a"}`, "ok", "panic", "", false, ""},
+	{"jsonld-type-number", `{"@id": "http://example.org/d#a", "@type": 1}`, "ok", "panic", "", false, ""},
+	{"jsonld-value-and-id", `{"@id": "http://example.org/d#a", "http://example.org/ns#p": {"@value": 1, "@id": "http://example.org/d#b"}}`, "ok", "panic", "", false, ""},
+	{"lexical-leading-zeros", `{"@graph":[{"@id":"http://example.org/d#a","@type":"http://example.org/ns#Thing"},{"@id":"http://example.org/d#sm","@type":["http://a.ml/vocabularies/document-source-maps#SourceMap"],"http://a.ml/vocabularies/document-source-maps#lexical":[{"@id":"http://example.org/d#lx"}]},{"@id":"http://example.org/d#lx","http://a.ml/vocabularies/document-source-maps#element":"http://example.org/d#a","http://a.ml/vocabularies/document-source-maps#value":"[(01,002)-(3,4)]"}]}`, "ok", "ok", "", true, "ok-min,ok-levels,eval-error"},
+	{"lexical-without-element", `{"@graph":[{"@id":"http://example.org/d#sm","@type":["http://a.ml/vocabularies/document-source-maps#SourceMap"],"http://a.ml/vocabularies/document-source-maps#lexical":[{"@id":"http://example.org/d#lx"}]},{"@id":"http://example.org/d#lx","http://a.ml/vocabularies/document-source-maps#value":"[(1,0)-(2,0)]"}]}`, "ok", "panic", "", false, ""},
 }
 
 func pv(name string) pvariant {
@@ -214,7 +216,13 @@ func (c pipeCase) faults() []string {
 	if c.d.evalErrWith == c.p.name {
 		eval = "err"
 	}
-	return []string{c.p.parse, c.p.gen, c.p.compile, c.d.decode, c.d.norm, eval, "ok"}
+	build := "ok"
+	for _, n := range strings.Split(c.d.buildErrWith, ",") {
+		if n != "" && n == c.p.name {
+			build = "err"
+		}
+	}
+	return []string{c.p.parse, c.p.gen, c.p.compile, c.d.decode, c.d.norm, eval, build}
 }
 
 // runPipeCase executes one (entry point, profile, data) with a recording consumer and compares with the model.
